@@ -9,13 +9,13 @@ package e2ex
 
 import (
 	"context"
-	"sync"
 	"errors"
 	"fmt"
 	"math"
 	"os"
 	"sort"
 	"strings"
+	"sync"
 	"testing"
 	"time"
 
@@ -572,11 +572,15 @@ func runE2EModel(t *rapid.T, focus string) {
 	if err != nil {
 		t.Skip("inconclusive: no free port")
 	}
+	drainPanics()
 	srv := &e2eServer{dir: dir, port: port, n: uint32(rapid.IntRange(1, 4).Draw(t, "shards"))}
 	if err := srv.start(); err != nil {
 		t.Skip("inconclusive: standalone does not start: " + err.Error())
 	}
-	defer func() { _ = srv.s.Close() }()
+	defer func() {
+		time.Sleep(30 * time.Millisecond) // see the restart step
+		_ = srv.s.Close()
+	}()
 	var copts []oxia.ClientOption
 	copts = append(copts, oxia.WithRequestTimeout(8*time.Second))
 	if rapid.Bool().Draw(t, "linger") {
@@ -649,6 +653,7 @@ func runE2EModel(t *rapid.T, focus string) {
 			}
 			restarted = true
 			c.logf("server restart")
+			time.Sleep(30 * time.Millisecond) // let the read goroutines of the server finish closing their iterators
 			_ = srv.s.Close()
 			if err := srv.start(); err != nil {
 				t.Skip("inconclusive: standalone does not restart: " + err.Error())
@@ -671,6 +676,11 @@ func runE2EModel(t *rapid.T, focus string) {
 		}
 	}
 	c.listAndScan()
+	if ps := drainPanics(); len(ps) > 0 {
+		evid.Note(focus, "server_goroutine_panic", ps[0])
+		evid.Case(focus, false, "e2e abandoned: "+ps[0], "inconclusive_server_goroutine_panicked")
+		t.Skip("inconclusive: a server goroutine panicked: " + ps[0])
+	}
 	// C17 through the whole stack: the application has received, per key, exactly the changes the model computed,
 	// in order (range deletes: one per shard the request was applied on; the order among them is free)
 	deadline := time.Now().Add(10 * time.Second)
